@@ -79,6 +79,7 @@ class wave_function(ABC):
         )
         return overlaps.reshape(n_walkers)
 
+    @calc_overlap.register(jax.core.Tracer)
     @calc_overlap.register
     def _(self, walkers: jax.Array, wave_data: dict) -> jax.Array:
         n_walkers = walkers.shape[0]
@@ -148,6 +149,7 @@ class wave_function(ABC):
         fbs = jnp.concatenate(fbs, axis=0)
         return fbs.reshape(n_walkers, -1)
 
+    @calc_force_bias.register(jax.core.Tracer)
     @calc_force_bias.register
     def _(self, walkers: jax.Array, ham_data: dict, wave_data: dict) -> jax.Array:
         n_walkers = walkers.shape[0]
@@ -222,6 +224,7 @@ class wave_function(ABC):
         )
         return energies.reshape(n_walkers)
 
+    @calc_energy.register(jax.core.Tracer)
     @calc_energy.register
     def _(self, walkers: jax.Array, ham_data: dict, wave_data: dict) -> jax.Array:
         n_walkers = walkers.shape[0]
